@@ -12,7 +12,9 @@ SPECIAL = ["polish", "Polish", "Alpha", "ALPHA", "正確", "4", "42", "ű", "Ű"
            "don't", "Don't", "o'neil", "O'neil", "O'Neil", "Jean-luc", "Jean-Luc", "New york", "New York", "éa", "Éa", "ǆ", "ǅ", "ß", "a b", "x", "X", "i", "I", "-", "1a", "1A", "a1b",
            # Unicode corners: title form of another byte length (dotless i, long s), digraphs with a separate title case,
            # combining marks, characters outside the BMP, ligatures, an emoji sequence
-           "ıa", "Ia", "ſa", "Sa", "ǆa", "ǅa", "Ǆa", "ǳ", "ǲ", "e\u0301a", "E\u0301a", "\u0301a", "𝓍y", "𝒳y", "ﬁne", "ŉa", "👨\u200d👩\u200d👧x", "ǰ", "ᾳ", "ᾼ"]
+           "ıa", "Ia", "ſa", "Sa", "ǆa", "ǅa", "Ǆa", "ǳ", "ǲ", "e\u0301a", "E\u0301a", "\u0301a", "𝓍y", "𝒳y", "ﬁne", "ŉa", "👨\u200d👩\u200d👧x", "ǰ", "ᾳ", "ᾼ",
+           # words beyond what the token index can carry (MakeIndices must refuse, Generate must not care)
+           "w" * 300, "é" * 256]
 
 LISTS_FIXED = [
     ["one", "two", "three"],
@@ -64,7 +66,8 @@ SEPS = [("char", "-"), ("char", ""), ("char", " "), ("char", "¡"), ("char", " -
         ("preset", "SFDigits1"), ("preset", "SFDigits2"), ("preset", "SFDigitsNoAmbiguous1"), ("preset", "SFDigitsNoAmbiguous2"),
         ("preset", "SFSymbols"), ("preset", "SFDigitsSymbols"),
         ("recipe", Recipe(1, allow_chars="ab")), ("recipe", Recipe(2, allow_chars="é€x")), ("recipe", Recipe(2, allow=4, require_sets=["357"])),
-        ("recipe", Recipe(3, allow=2, require=4)), ("recipe", Recipe(1, allow_chars="abc", exclude_chars="abc")), ("recipe", Recipe(0, allow=4))]
+        ("recipe", Recipe(3, allow=2, require=4)), ("recipe", Recipe(1, allow_chars="abc", exclude_chars="abc")), ("recipe", Recipe(0, allow=4)),
+        ("recipe", Recipe(300, allow=4))]
 CAPS = ["none", "first", "all", "random", "one", "weird", "", "All", "One", "RANDOM", "First"]   # scheme strings are case-sensitive: the last four are unknown
 
 PRESET_RECIPES = {
@@ -212,6 +215,21 @@ def parse_pre(res):
     return order, titles, " ".join(toks)
 
 
+def panic_prefix_ok(ra, rb):
+    """A generation that dies of a source failure part-way has printed the notices of the separator calls made so far: the
+    model renders the notices of a complete generation (Diag.v is a function of the recipe, not of the tape), so on a panic
+    outcome the implementation's stdout must be a PREFIX of the model's, everything else equal."""
+    if " panic prng " not in " " + ra + " " or " stdout=" not in ra or " stdout=" not in rb:
+        return False
+    ha, ta = ra.rsplit(" stdout=", 1)
+    hb, tb = rb.rsplit(" stdout=", 1)
+    if ha != hb:
+        return False
+    oa, ea = ta.split(" stderr=")
+    ob, eb = tb.split(" stderr=")
+    return ea == eb and core.unhx(ob).startswith(core.unhx(oa))
+
+
 def run_wlgen_family(ctx, cases, family="wlgen"):
     """cases: list of dict(list, length, sep, cap, budget, words, meta). Two-phase run; returns [(case, impl, model)]."""
     lines = []
@@ -242,7 +260,7 @@ def run_wlgen_family(ctx, cases, family="wlgen"):
         if ok:
             ra, ea = chargen.split_ent(a)
             rb, eb = chargen.split_ent(b)
-            ok = (ra == rb)
+            ok = (ra == rb) or panic_prefix_ok(ra, rb)
             if ok and (ea is not None or eb is not None):
                 ok = ea is not None and eb is not None and ea.startswith("F:") and wl_entropy_close(ea[2:], eb)
         if not ok:
@@ -279,14 +297,19 @@ def gen_cases(ctx, n, with_empty_word=False):
             if length in (1, 2):
                 length = rng.choice([3, 4, 5])
         size = 0 if l in ("nil", "zero") else py_size(l)
-        kinds = ["last", "exact"] if length >= 64 else rng.sample(["random", "first", "last", "exact", "boundary"], 2)
+        kinds = ["last", "exact"] if length >= 64 else rng.sample(["random", "first", "last", "exact", "boundary", "starve"], 2)
         sr = sep_recipe(sep)
         if sr is not None and sr.live_families() and budget[0] <= 12 and length >= 3:
             kinds = ["sepfail"] + kinds[:1]
         # both separator fields set: SeparatorFunc, when non-nil, is the one used ("If nil just use SeperatorChar")
         shadow = rng.choice(["+", "-", "é", " "]) if sep[0] != "char" and rng.random() < 0.15 else None
         for kind in kinds:
-            words = make_tape(rng, size, length, sep, cap, kind, budget)
+            if kind == "starve":
+                # the source dries up part-way through the generation (after at least one draw): a panic, and nothing else
+                full = make_tape(rng, size, length, sep, cap, "exact", budget)
+                words = full[:rng.randrange(1, max(2, len(full)))]
+            else:
+                words = make_tape(rng, size, length, sep, cap, kind, budget)
             cases.append({"list": l, "length": length, "sep": sep, "cap": cap, "budget": budget, "words": words,
                           "meta": {"list": l if isinstance(l, str) else l[:12], "length": length, "sep": sep_json(sep), "cap": cap, "budget": budget,
                                    "tape_kind": kind}})
